@@ -56,29 +56,38 @@ def insertByKey (p : Key × Ans) : List (Key × Ans) → List (Key × Ans)
 def showData (d : List (Key × Ans)) : String :=
   joinOrDash ((d.foldr insertByKey []).map fun p => s!"{p.1}:{p.2.val}:{p.2.exp}")
 
-def traceL (intended : Bool) : LState → List Op → List String
-  | _, [] => []
-  | s, op :: rest =>
-    let r := stepL intended s op
-    s!"{showOut17 r.2}|{showRing r.1.ring}|{r.1.maxSize}|{r.1.hits}/{r.1.misses}" :: traceL intended r.1 rest
+/-- an op token may end in `!`: the state after it is not printed (concurrent histories: an operation
+that ran without the lock has no consistent state of its own to show) -/
+def parseOp17q (s : String) : Option (Op × Bool) :=
+  match s.toList.reverse with
+  | '!' :: r => (parseOp17 (String.ofList r.reverse)).map (·, true)
+  | _ => (parseOp17 s).map (·, false)
 
-def traceC : CState → List Op → List String
+def traceL (intended : Bool) : LState → List (Op × Bool) → List String
   | _, [] => []
-  | s, op :: rest =>
+  | s, (op, q) :: rest =>
+    let r := stepL intended s op
+    (if q then s!"{showOut17 r.2}|?"
+     else s!"{showOut17 r.2}|{showRing r.1.ring}|{r.1.maxSize}|{r.1.hits}/{r.1.misses}") :: traceL intended r.1 rest
+
+def traceC : CState → List (Op × Bool) → List String
+  | _, [] => []
+  | s, (op, q) :: rest =>
     let r := stepC s op
-    s!"{showOut17 r.2}|{showData r.1.data}|{r.1.nextCleaning}|{r.1.hits}/{r.1.misses}" :: traceC r.1 rest
+    (if q then s!"{showOut17 r.2}|?"
+     else s!"{showOut17 r.2}|{showData r.1.data}|{r.1.nextCleaning}|{r.1.hits}/{r.1.misses}") :: traceC r.1 rest
 
 def handleC17 : List String → Option String
   | "c17.lru" :: intended :: mx :: t0 :: ops => do
     let i ← parseBool intended
     let mx ← mx.toInt?
     let t0 ← t0.toNat?
-    let ops ← ops.mapM parseOp17
+    let ops ← ops.mapM parseOp17q
     some (" ".intercalate ("ok" :: traceL i (initL mx t0) ops))
   | "c17.cache" :: interval :: t0 :: ops => do
     let iv ← interval.toNat?
     let t0 ← t0.toNat?
-    let ops ← ops.mapM parseOp17
+    let ops ← ops.mapM parseOp17q
     some (" ".intercalate ("ok" :: traceC (initC iv t0) ops))
   | _ => none
 
